@@ -100,7 +100,14 @@ func CaptureUnderWrites(seed int64, recovery fsm.SnapshotRecoveryType, captures 
 		wg.Add(1)
 		go func() {
 			defer wg.Done()
+			var lastSeen int64 = -1
 			for done.Add(1) <= int64(captures) && bad.Load() == nil {
+				// let the writer get ahead of the previous capture (bounded): captures of the same
+				// index over and over observe nothing new
+				for spin := 0; spin < 2000 && atomic.LoadInt64(&st.WritesApplied) == lastSeen; spin++ {
+					runtime.Gosched()
+				}
+				lastSeen = atomic.LoadInt64(&st.WritesApplied)
 				w := &cmdWriter{kvs: map[string]string{}}
 				v, err := t.SM.Lookup(fsm.SnapshotRequest{Writer: w})
 				if err != nil || w.err != nil {
